@@ -242,10 +242,33 @@ def memoised_with_incomplete_key(p, fn: FunctionInfo):
     cls = fn.cls
     if cls is None or not fn.self_name:
         return None
-    reads = {n.attr for n in ast.walk(fn.node) if isinstance(n, ast.Attribute) and isinstance(n.ctx, ast.Load)
-             and isinstance(n.value, ast.Name) and n.value.id == fn.self_name}
-    reads = {mangle(a, cls.name) for a in reads}
-    field_names = {f.name for k in p.mro(cls) for f in k.fields}
+    methods = {name: m for k in reversed(p.mro(cls)) for name, m in k.methods.items()}
+    inst_attrs = {f.name for k in p.mro(cls) for f in k.fields}
+    for k in p.mro(cls):
+        for m in k.methods.values():
+            if m.self_name:
+                inst_attrs |= {n.attr for n in ast.walk(m.node) if isinstance(n, ast.Attribute) and isinstance(n.ctx, ast.Store)
+                               and isinstance(n.value, ast.Name) and n.value.id == m.self_name}
+
+    def reads_of(f, depth=0):
+        """attributes of self that f's result may depend on: read directly, through properties / methods of the class, or all of
+        them when self itself is handed on (stored in the result, passed to a constructor)"""
+        out = set()
+        if not f.self_name:
+            return out
+        attr_bases = {id(n.value) for n in ast.walk(f.node) if isinstance(n, ast.Attribute)}
+        for n in ast.walk(f.node):
+            if isinstance(n, ast.Attribute) and isinstance(n.ctx, ast.Load) and isinstance(n.value, ast.Name) and n.value.id == f.self_name:
+                a = mangle(n.attr, cls.name)
+                if a in methods and depth < 3 and methods[a] is not f:
+                    out |= reads_of(methods[a], depth + 1)
+                else:
+                    out.add(a)
+            elif isinstance(n, ast.Name) and n.id == f.self_name and isinstance(n.ctx, ast.Load) and id(n) not in attr_bases:
+                out |= inst_attrs
+        return out
+    reads = reads_of(fn)
+    field_names = inst_attrs
     eq = next((k.methods["__eq__"] for k in p.mro(cls) if "__eq__" in k.methods), None)
     if eq is not None:
         compared = {n.attr for n in ast.walk(eq.node) if isinstance(n, ast.Attribute)}
@@ -265,3 +288,138 @@ def memoised_with_incomplete_key(p, fn: FunctionInfo):
         missing = sorted(reads & excluded)
         return (deco, missing, "declared field(compare=False): left out of the generated __eq__ and __hash__") if missing else None
     return None
+
+
+def _access_paths(fn: FunctionInfo, expr: ast.AST, _seen=None) -> Set[str]:
+    """the access paths (names, dotted attribute chains) an expression reads; a local name bound exactly once in `fn` stands for
+    the paths of what it was bound to; callee names, classes and modules are not inputs"""
+    seen = _seen if _seen is not None else set()
+    out: Set[str] = set()
+    params = {pp.name for pp in fn.params}
+    callee_ids = {id(n.func) for n in ast.walk(expr) if isinstance(n, ast.Call)}
+
+    def chain(n):
+        parts = []
+        while isinstance(n, ast.Attribute):
+            parts.append(n.attr)
+            n = n.value
+        if isinstance(n, ast.Name):
+            return n.id, list(reversed(parts))
+        return None, None
+
+    def visit(n):
+        if isinstance(n, ast.Attribute):
+            root, parts = chain(n)
+            if root is not None:
+                if id(n) in callee_ids:
+                    # a method call x.a.m(...): the receiver path is read
+                    if parts[:-1] or root:
+                        add(root, parts[:-1])
+                else:
+                    add(root, parts)
+                return
+        if isinstance(n, ast.Name):
+            if id(n) not in callee_ids and isinstance(n.ctx, ast.Load):
+                add(n.id, [])
+            return
+        for c in ast.iter_child_nodes(n):
+            visit(c)
+
+    def add(root, parts):
+        if root in params or root == fn.self_name:
+            out.add(".".join([root] + parts))
+            return
+        binds = [x for x in ast.walk(fn.node) if isinstance(x, ast.Assign) and len(x.targets) == 1
+                 and isinstance(x.targets[0], ast.Name) and x.targets[0].id == root]
+        stores = [x for x in ast.walk(fn.node) if isinstance(x, ast.Name) and x.id == root and isinstance(x.ctx, ast.Store)]
+        if len(binds) == 1 and len(stores) == 1 and root not in seen:
+            seen.add(root)
+            inner = _access_paths(fn, binds[0].value, seen)
+            out.update(inner if not parts else {q + "." + ".".join(parts) for q in inner})
+        elif stores:
+            out.add(".".join([root] + parts))          # a local we cannot see through: an input of its own
+        # otherwise: a global / builtin / imported name - not an input
+    visit(expr)
+    return out
+
+
+def memo_idiom(p, fn: FunctionInfo, container_text: str):
+    """`container[K] = E` with reads `container[K]` / `K in container` / `container.get(K)` of the same key expression, all inside
+    `fn`. Returns (missing inputs sorted, key text, value text) when the cached value depends on something the key does not cover,
+    ([], key, value) when the key covers every input (a pure memo: what it returns does not depend on what was asked before), or
+    None when the container is not used that way in `fn`."""
+    stores = []
+    for n in ast.walk(fn.node):
+        if isinstance(n, ast.Assign) and len(n.targets) == 1 and isinstance(n.targets[0], ast.Subscript) \
+                and ast.unparse(n.targets[0].value) == container_text:
+            stores.append((n.targets[0].slice, n.value, n))
+        if isinstance(n, ast.Call) and isinstance(n.func, ast.Attribute) and n.func.attr == "setdefault" \
+                and ast.unparse(n.func.value) == container_text and len(n.args) == 2:
+            stores.append((n.args[0], n.args[1], n))
+    if len(stores) != 1:
+        return None
+    key, value, store_node = stores[0]
+    ktext = ast.unparse(key)
+    # every other use of the container in fn asks with the same key
+    for n in ast.walk(fn.node):
+        if isinstance(n, (ast.Name, ast.Attribute)) and ast.unparse(n) == container_text and isinstance(getattr(n, "ctx", None), ast.Load):
+            pass
+    uses_ok = True
+    parent = {}
+    for n in ast.walk(fn.node):
+        for c in ast.iter_child_nodes(n):
+            parent[id(c)] = n
+    for n in ast.walk(fn.node):
+        if not (isinstance(n, (ast.Name, ast.Attribute)) and ast.unparse(n) == container_text):
+            continue
+        up = parent.get(id(n))
+        if isinstance(up, ast.Subscript) and up.value is n:
+            uses_ok = uses_ok and ast.unparse(up.slice) == ktext
+        elif isinstance(up, ast.Compare) and n in up.comparators and all(isinstance(o, (ast.In, ast.NotIn)) for o in up.ops):
+            uses_ok = uses_ok and ast.unparse(up.left) == ktext
+        elif isinstance(up, ast.Attribute) and up.attr in ("get", "setdefault"):
+            call = parent.get(id(up))
+            uses_ok = uses_ok and isinstance(call, ast.Call) and call.args and ast.unparse(call.args[0]) == ktext
+        elif isinstance(up, ast.Attribute) and up.value is n:
+            uses_ok = False          # .clear(), .pop(), iteration helpers ...: not the plain idiom
+        elif isinstance(up, ast.Attribute):
+            continue                 # n is the inner part of a longer chain that was compared as a whole
+        else:
+            uses_ok = False
+    if not uses_ok:
+        return None
+    deps = _access_paths(fn, value)
+    # what the key identifies: its components that are plain access paths (len(x), id(x), str(x) ... identify less than x)
+    key_expr = key
+    if isinstance(key_expr, ast.Name):
+        binds = [x for x in ast.walk(fn.node) if isinstance(x, ast.Assign) and len(x.targets) == 1
+                 and isinstance(x.targets[0], ast.Name) and x.targets[0].id == key_expr.id]
+        if len(binds) == 1:
+            key_expr = binds[0].value
+    comps = list(key_expr.elts) if isinstance(key_expr, ast.Tuple) else [key_expr]
+    covered: Set[str] = set()
+    for c0 in comps:
+        if isinstance(c0, (ast.Name, ast.Attribute)):
+            covered |= _access_paths(fn, c0)
+    cls = fn.cls
+    config = set()
+    if cls is not None and fn.self_name:
+        written_elsewhere = set()
+        for k in p.mro(cls):
+            for m in k.methods.values():
+                if m.name in ("__init__", "__post_init__") or not m.self_name:
+                    continue
+                written_elsewhere |= {x.attr for x in ast.walk(m.node) if isinstance(x, ast.Attribute) and isinstance(x.ctx, ast.Store)
+                                      and isinstance(x.value, ast.Name) and x.value.id == m.self_name}
+        config = {a for a in {d.split(".")[1] for d in deps if d.startswith(fn.self_name + ".") and d.count(".") >= 1}
+                  if a not in written_elsewhere}
+    missing = []
+    for d in sorted(deps):
+        if d == fn.self_name or d == container_text:
+            continue
+        if fn.self_name and d.startswith(fn.self_name + ".") and d.split(".")[1] in config and d != container_text:
+            continue                 # configuration of the object: the same for every call
+        if any(d == k or d.startswith(k + ".") for k in covered):
+            continue
+        missing.append(d)
+    return missing, ktext, ast.unparse(value)[:120]
